@@ -28,6 +28,9 @@ class Contract:
     pyx: bool = False
     mutants: list = dataclasses.field(default_factory=list)    # (old text, new text) must be killed
     consts: dict = dataclasses.field(default_factory=dict)     # module-level constants
+    stmt: str = ''                   # statement contract: name assigned inside the function
+    custom: object = None            # callable(verifier, contract, fdef, consts) -> obligations
+    tag: str = ''                    # distinguishes several contracts on one function
 
     @property
     def file(self):
@@ -58,7 +61,9 @@ class Registry:
         self.bases = {}         # class name -> [base names]
 
     def add(self, c):
-        self.contracts[c.target] = c
+        key = c.target + (f'@{c.tag or c.stmt}' if (c.tag or c.stmt) else '')
+        c.key = key
+        self.contracts[key] = c
         return c
 
     def record(self, name, fields, bases=()):
@@ -164,13 +169,11 @@ def make_symbolic(spec, name, reg, st):
             sort = {'int': z3.IntSort(), 'real': z3.RealSort(), 'bool': z3.BoolSort()}[kind]
             f = z3.Function(f'{name}!{id(shape)}', *([z3.IntSort()] * nd), sort)
             store = ArrStore(shape, lambda idx, f=f: f(*[_int(i) for i in idx]), kind, name)
-            arr = view_of(store)
             if 'nonfinite' in spec[3:]:
                 g = z3.Function(f'{name}_finite!{id(shape)}', *([z3.IntSort()] * nd),
                                 z3.BoolSort())
-                arr.finite = lambda idx, g=g: g(*[_int(i) for i in idx])
-                arr.isnan = lambda idx, g=g: z3.Not(g(*[_int(i) for i in idx]))
-            return arr
+                store.finite = lambda idx, g=g: g(*[_int(i) for i in idx])
+            return view_of(store)
         if tag == 'record':
             return SObj(spec[1], {f: make_symbolic(t, f'{name}.{f}', reg, st)
                                   for f, t in spec[2].items()})
